@@ -53,16 +53,27 @@ def _suite(name):
     return importlib.import_module(f'harness.suites.{name}')
 
 
+def _safe_run_impl(s, c):
+    """an exception that escapes from the library through an adapter (a place where the unchanged library never raises) is an
+    observation, not a failure of the machinery"""
+    try:
+        return s.run_impl(c)
+    except InfraError:
+        raise
+    except Exception as e:  # noqa
+        return {'__escaped__': core.exc_name(e), 'where': traceback.format_exc()[-600:]}
+
+
 def _run_impl_chunk(args):
     suite_name, cases = args
     s = _suite(suite_name)
-    return [s.run_impl(c) for c in cases]
+    return [_safe_run_impl(s, c) for c in cases]
 
 
 def run_impl_all(suite_name, cases, jobs):
     s = _suite(suite_name)
     if jobs <= 1 or len(cases) < 4000 or getattr(s, 'SERIAL', False):
-        return [s.run_impl(c) for c in cases]
+        return [_safe_run_impl(s, c) for c in cases]
     import multiprocessing as mp
     size = max(500, (len(cases) + jobs * 4 - 1) // (jobs * 4))
     chunks = [(suite_name, cases[i:i + size]) for i in range(0, len(cases), size)]
@@ -189,6 +200,15 @@ def run_check(prop, tier, seed, jobs, t0, build=True):
         if hasattr(s, 'relevant'):
             cases = [c for c in cases if s.relevant(prop, c)]
         impl_outs = run_impl_all(suite_name, cases, jobs)
+        # cases in which an exception escaped from the library through the adapter: a finding by themselves
+        escaped = [(c, io) for c, io in zip(cases, impl_outs) if isinstance(io, dict) and '__escaped__' in io]
+        for c, io in escaped[:50]:
+            findings.append(core.Finding(prop, f'escaped:{io["__escaped__"]}', f'{io["__escaped__"]} escaped from the library where the unchanged '
+                                                                              f'library never raises: {io["where"][-200:]}', c, io))
+            diffs.append({'suite': suite_name, 'case': c, 'model': None, 'implementation': io})
+        keep = [i for i, io in enumerate(impl_outs) if not (isinstance(io, dict) and '__escaped__' in io)]
+        cases = [cases[i] for i in keep]
+        impl_outs = [impl_outs[i] for i in keep]
         model_cases = [s.model_case(c, io) for c, io in zip(cases, impl_outs)] if hasattr(s, 'model_case') else cases
         model_outs = core.run_driver_sharded(model_cases, jobs)
         n_rel = 0
